@@ -237,3 +237,46 @@ class StrictInt(CustomSchema[Props]):
 
 
 register_type("mc_strictint", StrictInt)
+
+
+# A PARAMETRISED user-defined type whose printed form does not show its parameter (it defines
+# no __represent__, so the library prints "<MultipleOf>"): ints divisible by props.n.  And a
+# subclass of it with the same props that narrows the meaning (positive multiples only).
+class MultProps(Props):
+    @property
+    def n(self) -> Any:
+        return self.get("n", 1)
+
+
+class MultipleOf(CustomSchema[MultProps]):
+    def __call__(self, n: int) -> "MultipleOf":
+        return self.__class__(self.props.update(n=n))
+
+    def _ok(self, value: Any) -> bool:
+        return value % self.props.n == 0
+
+    def __generate__(self, visitor: Any, **kwargs: Any) -> Any:
+        return self.props.n * 2
+
+    def __validate__(self, visitor: Any, *, value: Any = Nil, path: Any = Nil, **kwargs: Any) -> Any:
+        from d42.validation.errors import TypeValidationError, ValueValidationError
+        result = visitor.make_validation_result()
+        if path is Nil:
+            path = visitor.make_path()
+        if not isinstance(value, int):
+            result.add_error(TypeValidationError(path, value, int))
+        elif not self._ok(value):
+            result.add_error(ValueValidationError(path, value, self.props.n * 2))
+        return result
+
+    def __substitute__(self, visitor: Any, *, value: Any = Nil, **kwargs: Any) -> Any:
+        return self
+
+
+class PositiveMultipleOf(MultipleOf):
+    def _ok(self, value: Any) -> bool:
+        return value > 0 and value % self.props.n == 0
+
+
+register_type("mc_mult", MultipleOf)
+register_type("mc_pmult", PositiveMultipleOf)
